@@ -236,7 +236,13 @@ class CSBK(BitsInterface, BytesInterface):
             )
         elif self.csbko == CsbkOpcodes.NegativeAcknowledgementResponse:
             pdu += (
-                bitarray([1, self.source_type == SourceType.MSSourced])
+                bitarray(
+                    [
+                        self.additional_information_field
+                        != AdditionalInformationField.Ignore,
+                        self.source_type == SourceType.MSSourced,
+                    ]
+                )
                 + self.service_type.as_bits()
                 + self.reason_code.as_bits()
                 + int2ba(self.source_address, length=24)
